@@ -67,6 +67,12 @@ CLAIMED.update({
    note="Preconditions: self-contained, named, sibling-unique, nets local to their definition. Outside: property values, unnamed elements, larger shapes.", design_ref="§4 C20"),
 })
 
+CLAIMED.update({
+ "C12": dict(engine="E1", technique="bounded symbolic execution of the real get_hwires tracing code on hierarchy-concrete fixtures with symbolic connections + z3; expected net = bounded transitive closure stated from the pin->wire fields",
+   text="Bounded: for each listed design (hierarchy fixed) and every hierarchical wire as starting point, z3 shows over ALL well-formed connection patterns that _get_hwires(start, ALL) returns exactly the connected component of the start, once each, without raising - so every member of a net gives the same answer. Counterexamples are rebuilt through the public API and compared with a plain union-find elaboration.",
+   note="Hierarchy (containment, references, top instance) is cube-split over two fixtures; hierarchical references are atoms over the path table. Outside: deeper/wider designs, INSIDE/OUTSIDE/BOTH selections, get_hpins/get_hcables/get_hports variants.", design_ref="§4 C12"),
+})
+
 NA_REASON = "check not built yet in this round (see DESIGN.md §7 build order); no claim is made"
 
 def main():
